@@ -101,6 +101,10 @@ pub struct LinkCfg {
     /// flush discards what was buffered).
     #[serde(default = "default_true")]
     pub sticky: bool,
+    /// Coupled links only: a full sink does not flush inside `poll_ready` (as `Framed` does) but
+    /// stays not-ready until `poll_flush` has been called and completed.
+    #[serde(default)]
+    pub explicit_flush: bool,
 }
 
 fn default_true() -> bool {
@@ -113,8 +117,7 @@ impl Default for LinkCfg {
             cap: 0,
             coupled: true,
             faults: vec![],
-            sticky: true,
-        }
+            sticky: true, explicit_flush: false }
     }
 }
 
@@ -133,7 +136,17 @@ pub struct Monitor {
     pub sends: u64,
     /// The read side reported an error: the component is shutting the connection down.
     pub read_failed: bool,
+    /// Stack position at the first read of the current poll of the owning component, and whether
+    /// runaway stack growth across reads within one poll has been reported already.
+    pub sp_base: Option<usize>,
+    pub stack_growth_reported: bool,
 }
+
+/// How much deeper than the first read of a poll a later read of the same poll may sit on the
+/// stack. Reads within one poll come from one loop at one depth; depth that grows with the number
+/// of messages is unbounded recursion on peer-supplied input, which ends in a stack overflow
+/// (a process abort, not even a panic).
+pub const STACK_GROWTH_LIMIT: usize = 192 * 1024;
 
 pub const SPIN_LIMIT: u32 = 64;
 pub const SPIN_PANIC: &str = "SIM_SPIN: transport polled not-ready more than 64 times in one poll";
@@ -205,6 +218,7 @@ impl Monitor {
     pub fn owner_poll_begin(&mut self) {
         self.not_ready_in_poll = 0;
         self.in_owner_poll = true;
+        self.sp_base = None;
     }
     pub fn owner_poll_end(&mut self, side: &str, pending: bool) {
         self.in_owner_poll = false;
@@ -357,6 +371,31 @@ impl<In: Describe, Out> Stream for SimTransport<In, Out> {
         let mut st = self.st.borrow_mut();
         let link = st.id;
         st.next_calls += 1;
+        {
+            let marker = 0u8;
+            let sp = &marker as *const u8 as usize;
+            match st.mon.sp_base {
+                None => st.mon.sp_base = Some(sp),
+                Some(base) if st.mon.in_owner_poll && base > sp && base - sp > STACK_GROWTH_LIMIT => {
+                    if !st.mon.stack_growth_reported {
+                        st.mon.stack_growth_reported = true;
+                        let depth = base - sp;
+                        let reads = st.next_calls;
+                        st.mon.violations.push(Violation {
+                            prop: "C16",
+                            rule: "stack-growth".to_string(),
+                            tags: vec![],
+                            detail: format!("within one poll the reads of the transport moved {depth} bytes down the stack ({reads} reads so far): the stack grows with the number of messages the peer sends"),
+                        });
+                    }
+                    // stop feeding the recursion before it overflows the stack for real
+                    drop(st);
+                    log_op(link, Op::Next, Res::Pending, None);
+                    return Poll::Pending;
+                }
+                _ => {}
+            }
+        }
         if st.eof_returned {
             // The Stream contract leaves polling after the end unspecified ("may panic, block
             // forever, or cause other kinds of problems"): this transport blocks forever, without
@@ -426,7 +465,7 @@ impl<In, Out: Describe> Sink<Out> for SimTransport<In, Out> {
             Res::Err
         } else if st.cfg.coupled {
             if st.cfg.cap > 0 && st.staged.len() >= st.cfg.cap {
-                if st.blocked {
+                if st.blocked || st.cfg.explicit_flush {
                     st.write_waker = Some(cx.waker().clone());
                     Res::Pending
                 } else {
@@ -531,7 +570,15 @@ impl<In, Out: Describe> Sink<Out> for SimTransport<In, Out> {
                 }
                 Res::Pending
             } else {
+                let was_full = st.cfg.cap > 0 && st.staged.len() >= st.cfg.cap;
                 st.flush_staged();
+                // whoever was told "not ready" is notified now that there is room again (the
+                // Sink contract: a Pending poll_ready registers for exactly this)
+                if was_full && st.cfg.explicit_flush {
+                    if let Some(w) = st.write_waker.take() {
+                        w.wake();
+                    }
+                }
                 Res::Ok
             }
         } else {
